@@ -1,3 +1,4 @@
+import Props.FnTie
 import JwtProofs.Encode
 /-!
 # C12 — Encode stamps issuer, issue time, id, kind and version, and changes nothing else
